@@ -15,7 +15,25 @@
     [fail_next_enter] injection) or while it is blocked ([PInKernel]: a signal arrives later).
     [Shared::enter] turns EINTR into [Ok(0)] without [wake_blocked_futures];
     [Completions::poll] goes on with [set_polling(false)], reloads the tail, processes what is
-    there, stores the head, runs the end-of-poll [wake_blocked_futures] and returns. *)
+    there, stores the head, runs the end-of-poll [wake_blocked_futures] and returns.
+
+    Futures parked on the blocked-futures list ([Shared::blocked_futures]: they were polled while
+    the submission queue was full, [Submissions::wait_for_submission] pushed their waker): the
+    state has their number [parked]; [Shared::wake_blocked_futures] is modelled as the code has it,
+    with all its scheduling points, at its three call sites (after a successful enter of the
+    poller, at the end of every poll, after a waker's enter):
+      load SQ head; load SQ tail; [available = len.saturating_sub(tail - head)]; return when 0;
+      try_lock; return when the list is empty; take the list, unlock;
+      wake [min(available, n)] of the [n] wakers taken; LOCK (again); swap the list (what was
+      parked meanwhile) with the rest; of what was parked meanwhile put the last
+      [min(available - awoken, .)] back and wake the others; unlock.
+    The blocked-futures mutex is never held across a scheduling point (by nobody: neither
+    [wait_for_submission] nor the two critical sections here contain one), so the try_lock always
+    succeeds and the LOCK never spins; a replay in which it did would diverge (code 2 instead of
+    1). Waking a waker has no scheduling point. Nobody parks during the race and woken futures are
+    not polled again, so the list only shrinks (and "what was parked meanwhile" is always
+    nothing; the arithmetic is kept as written). The locals of the function ([available]; the
+    wakers taken and not woken, what is left of [available]) live in the program counter. *)
 From A10 Require Import Base.Word Base.Run Gen.Consts.
 
 Inductive mode := Default | SingleIssuer | KernelThread.
@@ -29,20 +47,23 @@ Inductive ppc :=
   | PEnterH | PEnterT     (* unsubmitted_submissions: load SQ head, load SQ tail (+ syscall) *)
   | PEnterFlags           (* kernel-thread mode: load kernel flags (+ syscall) *)
   | PInKernel             (* blocked inside io_uring_enter *)
-  | PWbH | PWbT | PWbTry  (* wake_blocked_futures: two loads, try_lock *)
+  | PWbH | PWbT           (* wake_blocked_futures: two loads, ... *)
+  | PWbTry (avail : N)    (* ... try_lock; local: the available slots computed from the two loads *)
+  | PWbLock (rest left : N) (* ... LOCK to put back; locals: wakers taken and not woken, available - awoken *)
   | PClearPolling         (* PollingState::set_polling(false) *)
   | PClearPollingIntr     (* the same code point, reached from an enter that failed with EINTR: the code as it is
                              does not tell the two apart; a poll that retried its wait would (see [pstep_loop]) *)
   | PLoadCqT2             (* reload CQ tail *)
   | PStoreHead            (* store CQ head *)
-  | PEndWbH | PEndWbT | PEndWbTry.  (* wake_blocked_futures at the end of every poll (repair of H15); the poll returns afterwards *)
+  | PEndWbH | PEndWbT | PEndWbTry (avail : N) | PEndWbLock (rest left : N).
+                          (* wake_blocked_futures at the end of every poll (repair of H15); the poll returns afterwards *)
 
 (** Where a waker is inside [Submissions::wake]. *)
 Inductive wpc :=
   | WIdle                 (* next: PollingState::wake (fetch_or) *)
   | WAddH1 | WAddT1 | WAddLock | WAddSpin | WAddH2 | WAddT2 | WAddFill | WAddStore
   | WEnterH | WEnterT | WEnterFlags
-  | WWbH | WWbT | WWbTry.
+  | WWbH | WWbT | WWbTry (avail : N) | WWbLock (rest left : N).
 
 Record waker := { wp : wpc; calls : nat (* wake() calls still to make, incl. the current one *);
                   wok : bool (* local: the add of the current attempt succeeded *) }.
@@ -61,6 +82,7 @@ Record st := {
   aw : bool;              (* local: set_polling(true) reported "awoken" *)
   lh : N;                 (* local: loaded SQ head *)
   seen : N;               (* local: completions the current poll will release *)
+  parked : N;             (* wakers on the blocked-futures list: futures polled while the queue was full *)
   psub : N;               (* kernel side: what the poller's blocked io_uring_enter submitted before it blocked
                              (a wait interrupted after submitting something reports the count, not EINTR) *)
   wakers : list waker;
@@ -70,17 +92,18 @@ Record st := {
   lost : bool;            (* the poller blocked for ever although a wake-up was owed *)
 }.
 
-Definition init (m : mode) (c prefill : N) (npolls : nat) (wcalls : list nat) : st :=
+Definition init (m : mode) (c prefill nparked : N) (npolls : nat) (wcalls : list nat) : st :=
   {| md := m; cap := c; sqo := prefill; pstate := 0; sqh := 0; sqt := prefill; cq := 0; holder := None;
      pp := PIdle; polls := npolls; aw := false; lh := 0; seen := 0; psub := 0;
      wakers := map (fun c => {| wp := WIdle; calls := c; wok := false |}) wcalls;
-     wlh := map (fun _ => 0) wcalls; owed := false; lost := false |}.
+     wlh := map (fun _ => 0) wcalls; parked := nparked; owed := false; lost := false |}.
 
 Definition ppc_code (p : ppc) : Z :=
   match p with
   | PIdle | PLoadCqT | PEnterH | PEnterT | PEnterFlags | PWbH | PWbT | PLoadCqT2 | PEndWbH | PEndWbT => 4
   | PSetPolling | PClearPolling | PClearPollingIntr => 8
-  | PWbTry | PEndWbTry => 3
+  | PWbTry _ | PEndWbTry _ => 3
+  | PWbLock _ _ | PEndWbLock _ _ => 1
   | PStoreHead => 6
   | PInKernel => 998
   end.
@@ -88,11 +111,11 @@ Definition wpc_code (p : wpc) : Z :=
   match p with
   | WIdle => 8
   | WAddH1 | WAddT1 | WAddH2 | WAddT2 | WEnterH | WEnterT | WEnterFlags | WWbH | WWbT => 4
-  | WAddLock => 1
+  | WAddLock | WWbLock _ _ => 1
   | WAddSpin => 2
   | WAddFill => 9
   | WAddStore => 5
-  | WWbTry => 3
+  | WWbTry _ => 3
   end.
 
 Definition upd (s : st) (f : st -> st) : st := f s.
@@ -101,7 +124,7 @@ Definition upd (s : st) (f : st -> st) : st := f s.
 Definition set_p (s : st) (p : ppc) : st :=
   {| md := md s; cap := cap s; sqo := sqo s; pstate := pstate s; sqh := sqh s; sqt := sqt s; cq := cq s; holder := holder s;
      pp := p; polls := polls s; aw := aw s; lh := lh s; seen := seen s; wakers := wakers s;
-     wlh := wlh s; psub := psub s; owed := owed s; lost := lost s |}.
+     wlh := wlh s; psub := psub s; parked := parked s; owed := owed s; lost := lost s |}.
 
 (** The kernel consumes [k] wake messages: each posts its message completion and, when
     submitted through the ring, the sender's own completion. *)
@@ -111,7 +134,7 @@ Definition consume (s : st) (k : N) : st :=
   {| md := md s; cap := cap s; sqo := sqo s - o; pstate := pstate s; sqh := sqh s + k'; sqt := sqt s;
      cq := cq s + 2 * (k' - o);
      holder := holder s; pp := pp s; polls := polls s; aw := aw s; lh := lh s; seen := seen s;
-     wakers := wakers s; wlh := wlh s; psub := psub s; owed := owed s; lost := lost s |}.
+     wakers := wakers s; wlh := wlh s; psub := psub s; parked := parked s; owed := owed s; lost := lost s |}.
 
 Definition consume_all (s : st) : st := consume s (sqt s - sqh s).
 
@@ -128,18 +151,40 @@ Definition sq_full (s : st) (loaded_head : N) : bool := cap s <=? sqt s - loaded
 Definition set_lh (s : st) (v : N) : st :=
   {| md := md s; cap := cap s; sqo := sqo s; pstate := pstate s; sqh := sqh s; sqt := sqt s; cq := cq s; holder := holder s;
      pp := pp s; polls := polls s; aw := aw s; lh := v; seen := seen s; wakers := wakers s;
-     wlh := wlh s; psub := psub s; owed := owed s; lost := lost s |}.
+     wlh := wlh s; psub := psub s; parked := parked s; owed := owed s; lost := lost s |}.
 
 (** The poll returns. *)
 Definition poll_return (s : st) : st :=
   {| md := md s; cap := cap s; sqo := sqo s; pstate := pstate s; sqh := sqh s; sqt := sqt s; cq := cq s;
      holder := holder s; pp := PIdle; polls := pred (polls s); aw := false; lh := lh s; seen := seen s;
-     wakers := wakers s; wlh := wlh s; psub := psub s; owed := false; lost := lost s |}.
+     wakers := wakers s; wlh := wlh s; psub := psub s; parked := parked s; owed := false; lost := lost s |}.
 
 Definition set_psub (s : st) (v : N) : st :=
   {| md := md s; cap := cap s; sqo := sqo s; pstate := pstate s; sqh := sqh s; sqt := sqt s; cq := cq s; holder := holder s;
      pp := pp s; polls := polls s; aw := aw s; lh := lh s; seen := seen s; wakers := wakers s;
-     wlh := wlh s; psub := v; owed := owed s; lost := lost s |}.
+     wlh := wlh s; psub := v; parked := parked s; owed := owed s; lost := lost s |}.
+
+Definition set_parked (s : st) (v : N) : st :=
+  {| md := md s; cap := cap s; sqo := sqo s; pstate := pstate s; sqh := sqh s; sqt := sqt s; cq := cq s; holder := holder s;
+     pp := pp s; polls := polls s; aw := aw s; lh := lh s; seen := seen s; wakers := wakers s;
+     wlh := wlh s; psub := psub s; parked := v; owed := owed s; lost := lost s |}.
+
+(** [wake_blocked_futures] after its two loads: [submissions_len.saturating_sub(tail - head)] (the
+    subtraction of [N] truncates at 0 like [saturating_sub]); it is 0 exactly when [sq_full]. *)
+Definition wbf_available (s : st) (loaded_head : N) : N := cap s - (sqt s - loaded_head).
+(** ... with [n] wakers taken from the list: [awoken = min(available, n)] are woken at once; the
+    thread keeps [n - awoken] of them and [available - awoken] for the put-back. *)
+Definition wbf_awoken (avail n : N) : N := N.min avail n.
+Definition wbf_rest (avail n : N) : N := n - wbf_awoken avail n.
+Definition wbf_left (avail n : N) : N := avail - wbf_awoken avail n.
+(** ... under the second lock: the list (what was parked since the take: [parked s]) is swapped with
+    the rest; of the former the last [min(left, .)] are appended again ("add back any wakers for
+    which we don't have a slot": as written it is the other way round — it keeps as many parked
+    as there ARE slots left and wakes those beyond; harmless here because nothing is parked
+    meanwhile), the others are woken. *)
+Definition wbf_putback (s : st) (rest left : N) : st :=
+  let newly := parked s in
+  set_parked s (rest + N.min left newly).
 
 (** Poller steps. *)
 Definition after_enter_ok (s : st) : st := set_p s PWbH.
@@ -163,7 +208,7 @@ Definition submitted_count (s : st) (to_submit : N) : N :=
 Definition clear_polling (s : st) (next : ppc) : st :=
   {| md := md s; cap := cap s; sqo := sqo s; pstate := NOT_POLLING; sqh := sqh s; sqt := sqt s; cq := cq s; holder := holder s;
      pp := next; polls := polls s; aw := aw s; lh := lh s; seen := seen s;
-     wakers := wakers s; wlh := wlh s; psub := psub s; owed := owed s; lost := lost s |}.
+     wakers := wakers s; wlh := wlh s; psub := psub s; parked := parked s; owed := owed s; lost := lost s |}.
 
 Definition pstep (s : st) : st :=
   match pp s with
@@ -177,18 +222,18 @@ Definition pstep (s : st) : st :=
       if 0 <? cq s then
         {| md := md s; cap := cap s; sqo := sqo s; pstate := pstate s; sqh := sqh s; sqt := sqt s; cq := cq s; holder := holder s;
            pp := PStoreHead; polls := polls s; aw := aw s; lh := lh s; seen := cq s;
-           wakers := wakers s; wlh := wlh s; psub := psub s; owed := owed s; lost := lost s |}
+           wakers := wakers s; wlh := wlh s; psub := psub s; parked := parked s; owed := owed s; lost := lost s |}
       else set_p s PSetPolling
   | PSetPolling =>
       let awoken := N.testbit (pstate s) 1 in
       {| md := md s; cap := cap s; sqo := sqo s; pstate := IS_POLLING; sqh := sqh s; sqt := sqt s; cq := cq s; holder := holder s;
          pp := match md s with KernelThread => PEnterFlags | _ => PEnterH end;
          polls := polls s; aw := awoken; lh := lh s; seen := seen s;
-         wakers := wakers s; wlh := wlh s; psub := psub s; owed := owed s; lost := lost s |}
+         wakers := wakers s; wlh := wlh s; psub := psub s; parked := parked s; owed := owed s; lost := lost s |}
   | PEnterH =>
       {| md := md s; cap := cap s; sqo := sqo s; pstate := pstate s; sqh := sqh s; sqt := sqt s; cq := cq s; holder := holder s;
          pp := PEnterT; polls := polls s; aw := aw s; lh := sqh s; seen := seen s;
-         wakers := wakers s; wlh := wlh s; psub := psub s; owed := owed s; lost := lost s |}
+         wakers := wakers s; wlh := wlh s; psub := psub s; parked := parked s; owed := owed s; lost := lost s |}
   | PEnterT => enter_wait (syscall_submit s (sqt s - lh s)) (submitted_count s (sqt s - lh s))
   | PEnterFlags => enter_wait (syscall_submit s 0) 0
   | PInKernel =>
@@ -196,21 +241,28 @@ Definition pstep (s : st) : st :=
       let s' := match md s with KernelThread => consume_all s | _ => s end in
       if 0 <? cq s' then after_enter_ok s' else s'
   | PWbH => set_p (set_lh s (sqh s)) PWbT
-  | PWbT => if sq_full s (lh s) then set_p s PClearPolling else set_p s PWbTry
-  | PWbTry => set_p s PClearPolling
+  | PWbT => if sq_full s (lh s) then set_p s PClearPolling else set_p s (PWbTry (wbf_available s (lh s)))
+  | PWbTry a =>
+      (* try_lock (never taken, see above); nothing parked: return; else take the list, wake *)
+      if parked s =? 0 then set_p s PClearPolling
+      else set_p (set_parked s 0) (PWbLock (wbf_rest a (parked s)) (wbf_left a (parked s)))
+  | PWbLock r l => set_p (wbf_putback s r l) PClearPolling
   | PClearPolling | PClearPollingIntr => clear_polling s PLoadCqT2
   | PLoadCqT2 =>
       {| md := md s; cap := cap s; sqo := sqo s; pstate := pstate s; sqh := sqh s; sqt := sqt s; cq := cq s; holder := holder s;
          pp := PStoreHead; polls := polls s; aw := aw s; lh := lh s; seen := cq s;
-         wakers := wakers s; wlh := wlh s; psub := psub s; owed := owed s; lost := lost s |}
+         wakers := wakers s; wlh := wlh s; psub := psub s; parked := parked s; owed := owed s; lost := lost s |}
   | PStoreHead =>
       (* head := tail snapshot *)
       {| md := md s; cap := cap s; sqo := sqo s; pstate := pstate s; sqh := sqh s; sqt := sqt s; cq := cq s - seen s;
          holder := holder s; pp := PEndWbH; polls := polls s; aw := aw s; lh := lh s; seen := 0;
-         wakers := wakers s; wlh := wlh s; psub := psub s; owed := owed s; lost := lost s |}
+         wakers := wakers s; wlh := wlh s; psub := psub s; parked := parked s; owed := owed s; lost := lost s |}
   | PEndWbH => set_p (set_lh s (sqh s)) PEndWbT
-  | PEndWbT => if sq_full s (lh s) then poll_return s else set_p s PEndWbTry
-  | PEndWbTry => poll_return s
+  | PEndWbT => if sq_full s (lh s) then poll_return s else set_p s (PEndWbTry (wbf_available s (lh s)))
+  | PEndWbTry a =>
+      if parked s =? 0 then poll_return s
+      else set_p (set_parked s 0) (PEndWbLock (wbf_rest a (parked s)) (wbf_left a (parked s)))
+  | PEndWbLock r l => poll_return (wbf_putback s r l)
   end.
 
 (** The poller's step when its [io_uring_enter] is interrupted by a signal.
@@ -256,28 +308,30 @@ Definition pintr_loop (s : st) : st :=
 Definition pstuck (s : st) : st :=
   {| md := md s; cap := cap s; sqo := sqo s; pstate := pstate s; sqh := sqh s; sqt := sqt s; cq := cq s; holder := holder s;
      pp := (if psub s =? 0 then PClearPolling else PWbH); polls := polls s; aw := aw s; lh := lh s; seen := seen s;
-     wakers := wakers s; wlh := wlh s; psub := psub s; owed := owed s; lost := lost s || owed s |}.
+     wakers := wakers s; wlh := wlh s; psub := psub s; parked := parked s; owed := owed s; lost := lost s || owed s |}.
 
 Definition set_w (s : st) (i : nat) (w : waker) : st :=
   {| md := md s; cap := cap s; sqo := sqo s; pstate := pstate s; sqh := sqh s; sqt := sqt s; cq := cq s; holder := holder s;
      pp := pp s; polls := polls s; aw := aw s; lh := lh s; seen := seen s;
      wakers := firstn i (wakers s) ++ w :: skipn (S i) (wakers s);
-     wlh := wlh s; psub := psub s; owed := owed s; lost := lost s |}.
+     wlh := wlh s; psub := psub s; parked := parked s; owed := owed s; lost := lost s |}.
 
 Definition set_wlh (s : st) (i : nat) (v : N) : st :=
   {| md := md s; cap := cap s; sqo := sqo s; pstate := pstate s; sqh := sqh s; sqt := sqt s; cq := cq s; holder := holder s;
      pp := pp s; polls := polls s; aw := aw s; lh := lh s; seen := seen s; wakers := wakers s;
-     wlh := firstn i (wlh s) ++ v :: skipn (S i) (wlh s); psub := psub s; owed := owed s; lost := lost s |}.
+     wlh := firstn i (wlh s) ++ v :: skipn (S i) (wlh s); psub := psub s; parked := parked s; owed := owed s; lost := lost s |}.
 
 Definition set_holder (s : st) (h : option nat) : st :=
   {| md := md s; cap := cap s; sqo := sqo s; pstate := pstate s; sqh := sqh s; sqt := sqt s; cq := cq s; holder := h;
      pp := pp s; polls := polls s; aw := aw s; lh := lh s; seen := seen s; wakers := wakers s;
-     wlh := wlh s; psub := psub s; owed := owed s; lost := lost s |}.
+     wlh := wlh s; psub := psub s; parked := parked s; owed := owed s; lost := lost s |}.
 
 Definition call_done (w : waker) : waker := {| wp := WIdle; calls := pred (calls w); wok := false |}.
 Definition at_pc (w : waker) (p : wpc) : waker := {| wp := p; calls := calls w; wok := wok w |}.
 Definition at_pc_ok (w : waker) (p : wpc) (b : bool) : waker := {| wp := p; calls := calls w; wok := b |}.
-
+(** After the [wake_blocked_futures] of the waker's [enter]: the call is done when the add had
+    succeeded, else back to the add. *)
+Definition after_wbf (w : waker) : waker := if wok w then call_done w else at_pc w WAddH1.
 
 Definition wstep (s : st) (i : nat) : st :=
   match nth_error (wakers s) i with
@@ -293,7 +347,7 @@ Definition wstep (s : st) (i : nat) : st :=
             let s1 := {| md := md s; cap := cap s; sqo := sqo s; pstate := N.lor old IS_AWOKEN; sqh := sqh s; sqt := sqt s;
                          cq := cq s; holder := holder s; pp := pp s; polls := polls s; aw := aw s;
                          lh := lh s; seen := seen s; wakers := wakers s; wlh := wlh s;
-                         psub := psub s; owed := true; lost := lost s |} in
+                         psub := psub s; parked := parked s; owed := true; lost := lost s |} in
             if old =? IS_POLLING then
               match md s with
               | SingleIssuer =>
@@ -301,7 +355,7 @@ Definition wstep (s : st) (i : nat) : st :=
                   let s2 := {| md := md s1; cap := cap s1; sqo := sqo s1; pstate := pstate s1; sqh := sqh s1; sqt := sqt s1;
                                cq := cq s1 + 1; holder := holder s1; pp := pp s1; polls := polls s1;
                                aw := aw s1; lh := lh s1; seen := seen s1; wakers := wakers s1;
-                               wlh := wlh s1; psub := psub s1; owed := owed s1; lost := lost s1 |} in
+                               wlh := wlh s1; psub := psub s1; parked := parked s1; owed := owed s1; lost := lost s1 |} in
                   set_w s2 i (call_done w)
               | _ => set_w s1 i (at_pc w WAddH1)
               end
@@ -329,7 +383,7 @@ Definition wstep (s : st) (i : nat) : st :=
     | WAddStore =>
         let s1 := {| md := md s; cap := cap s; sqo := sqo s; pstate := pstate s; sqh := sqh s; sqt := sqt s + 1; cq := cq s;
                      holder := None; pp := pp s; polls := polls s; aw := aw s; lh := lh s;
-                     seen := seen s; wakers := wakers s; wlh := wlh s; psub := psub s; owed := owed s; lost := lost s |} in
+                     seen := seen s; wakers := wakers s; wlh := wlh s; psub := psub s; parked := parked s; owed := owed s; lost := lost s |} in
         set_w s1 i (at_pc_ok w (match md s with KernelThread => WEnterFlags | _ => WEnterH end) true)
     | WEnterH => set_w (set_wlh s i (sqh s)) i (at_pc w WEnterT)
     | WEnterT =>
@@ -340,9 +394,12 @@ Definition wstep (s : st) (i : nat) : st :=
     | WWbT =>
         (* wake_blocked_futures returns before the try_lock when no slot is available *)
         if sq_full s (nth i (wlh s) 0)
-        then (if wok w then set_w s i (call_done w) else set_w s i (at_pc w WAddH1))
-        else set_w s i (at_pc w WWbTry)
-    | WWbTry => if wok w then set_w s i (call_done w) else set_w s i (at_pc w WAddH1)
+        then set_w s i (after_wbf w)
+        else set_w s i (at_pc w (WWbTry (wbf_available s (nth i (wlh s) 0))))
+    | WWbTry a =>
+        if parked s =? 0 then set_w s i (after_wbf w)
+        else set_w (set_parked s 0) i (at_pc w (WWbLock (wbf_rest a (parked s)) (wbf_left a (parked s))))
+    | WWbLock r l => set_w (wbf_putback s r l) i (after_wbf w)
     end
   end.
 
@@ -367,6 +424,72 @@ Definition step_loop (s : st) (e : ev) : st * list Z :=
   | _ => step s e
   end.
 
+(** * NOT the code as it is: seeded change C11-h (refutation only, [has_waiting_bit_loses_wakeup]).
+    A third bit HAS_WAITING of the state word says "futures are parked on the blocked-futures
+    list": set by [wait_for_submission] (before the race: [init_hw]), kept by [set_polling] (a
+    [fetch_update] instead of the swap), cleared under the lock by [wake_blocked_futures] when it
+    finds or leaves the list empty, and read by [wake_blocked_futures] first thing as a lock-free
+    early out (no scheduling point: it runs in the segment that calls the function, so that the
+    function's first scheduling point is never reached). [PollingState::wake] is unchanged and
+    still compares the whole word with [IS_POLLING] — as [wstep] does. The variant is the base
+    step followed by the corrections. *)
+Definition HAS_WAITING : N := 4.
+
+Definition set_pstate (s : st) (v : N) : st :=
+  {| md := md s; cap := cap s; sqo := sqo s; pstate := v; sqh := sqh s; sqt := sqt s; cq := cq s; holder := holder s;
+     pp := pp s; polls := polls s; aw := aw s; lh := lh s; seen := seen s; wakers := wakers s;
+     wlh := wlh s; psub := psub s; parked := parked s; owed := owed s; lost := lost s |}.
+
+Definition init_hw (m : mode) (c prefill nparked : N) (npolls : nat) (wcalls : list nat) : st :=
+  set_pstate (init m c prefill nparked npolls wcalls) (if 0 <? nparked then HAS_WAITING else 0).
+
+(** Every base step writes a word without bit 2 (the swaps) or keeps all bits ([fetch_or]): the
+    variant keeps bit 2 of the old word. *)
+Definition hw_keep (s s1 : st) : st :=
+  set_pstate s1 (N.lor (N.land (pstate s) HAS_WAITING) (pstate s1)).
+Definition hw_clear (s : st) : st := set_pstate s (N.land (pstate s) 3).
+
+(** [has_waiting()] false on entry to [wake_blocked_futures]: the function returns at once. *)
+Definition hw_enter_p (s : st) : st :=
+  if N.testbit (pstate s) 2 then s
+  else match pp s with
+       | PWbH => set_p s PClearPolling
+       | PEndWbH => poll_return s
+       | _ => s
+       end.
+
+Definition hw_post_p (s s1 : st) : st :=
+  let s2 := hw_keep s s1 in
+  let s3 := match pp s with
+            | PWbTry _ | PEndWbTry _ => if parked s =? 0 then hw_clear s2 else s2     (* found empty *)
+            | PWbLock _ _ | PEndWbLock _ _ => if parked s2 =? 0 then hw_clear s2 else s2   (* left empty *)
+            | _ => s2
+            end in
+  hw_enter_p s3.
+
+Definition wstep_hw (s : st) (i : nat) : st :=
+  match nth_error (wakers s) i with
+  | None => s
+  | Some w =>
+      let s2 := hw_keep s (wstep s i) in
+      let s3 := match wp w with
+                | WWbTry _ => if parked s =? 0 then hw_clear s2 else s2
+                | WWbLock _ _ => if parked s2 =? 0 then hw_clear s2 else s2
+                | _ => s2
+                end in
+      if N.testbit (pstate s3) 2 then s3
+      else match nth_error (wakers s3) i with
+           | Some w3 => match wp w3 with WWbH => set_w s3 i (after_wbf w3) | _ => s3 end
+           | None => s3
+           end
+  end.
+
+Definition step_hw (s : st) (e : ev) : st * list Z :=
+  match e with
+  | W i => (wstep_hw s i, [])
+  | _ => (hw_post_p s (fst (step s e)), [])
+  end.
+
 (** * Correspondence driver: per executed step the scheduling-point code the model expects the
     thread to be resumed from; at the end whether a wake-up was lost, how many polls returned. *)
 Fixpoint run_steps (s : st) (es : list ev) : st * list Z :=
@@ -382,9 +505,26 @@ Fixpoint run_steps (s : st) (es : list ev) : st * list Z :=
       let '(s1, o) := run_steps (fst (step s e)) r in (s1, here :: o)
   end.
 
-Record wkcase := { wk_mode : mode; wk_cap : N; wk_prefill : N; wk_polls : nat; wk_wakes : list nat;
+Record wkcase := { wk_mode : mode; wk_cap : N; wk_prefill : N; wk_parked : N; wk_polls : nat; wk_wakes : list nat;
                    wk_events : list ev }.
 
 Definition run_wkcase (c : wkcase) : list Z :=
-  let '(s, o) := run_steps (init (wk_mode c) (wk_cap c) (wk_prefill c) (wk_polls c) (wk_wakes c)) (wk_events c) in
-  o ++ [(-1)%Z; bz (lost s); Z.of_nat (polls s); nz (cq s); nz (sqt s - sqh s)].
+  let '(s, o) := run_steps (init (wk_mode c) (wk_cap c) (wk_prefill c) (wk_parked c) (wk_polls c) (wk_wakes c)) (wk_events c) in
+  o ++ [(-1)%Z; bz (lost s); Z.of_nat (polls s); nz (cq s); nz (sqt s - sqh s); nz (parked s)].
+
+(** The same for the seeded variant (not used by [bin/check]; for replaying the seeded code by hand). *)
+Fixpoint run_steps_hw (s : st) (es : list ev) : st * list Z :=
+  match es with
+  | [] => (s, [])
+  | e :: r =>
+      let here := match e with
+                  | P => ppc_code (pp s)
+                  | W i => match nth_error (wakers s) i with Some w => wpc_code (wp w) | None => (-9)%Z end
+                  | Stuck => 999%Z
+                  | PI => match pp s with PInKernel => 997%Z | p => ppc_code p end
+                  end in
+      let '(s1, o) := run_steps_hw (fst (step_hw s e)) r in (s1, here :: o)
+  end.
+Definition run_wkcase_hw (c : wkcase) : list Z :=
+  let '(s, o) := run_steps_hw (init_hw (wk_mode c) (wk_cap c) (wk_prefill c) (wk_parked c) (wk_polls c) (wk_wakes c)) (wk_events c) in
+  o ++ [(-1)%Z; bz (lost s); Z.of_nat (polls s); nz (cq s); nz (sqt s - sqh s); nz (parked s)].
